@@ -81,6 +81,17 @@ for content_type, extension in ADDITIONAL_CONTENT_TYPES.items():
 _CLOSE_FUTURES: set[asyncio.Future[None]] = set()
 
 
+def _has_zero_weight(coding: str) -> bool:
+    """Check if an Accept-Encoding list member has the weight 0 (";q=0")."""
+    name, _, value = coding.partition(";")[2].partition("=")
+    if name.strip() != "q":
+        return False
+    try:
+        return float(value) == 0
+    except ValueError:
+        return False
+
+
 class FileResponse(StreamResponse):
     """A response object can be used to send files."""
 
@@ -233,6 +244,12 @@ class FileResponse(StreamResponse):
         self, accept_encoding: str
     ) -> tuple[pathlib.Path | None, os.stat_result, str | None]:
         file_path = self._path
+        # A coding listed with a zero weight ("gzip;q=0") is not acceptable.
+        accept_encoding = ",".join(
+            coding
+            for coding in accept_encoding.split(",")
+            if not _has_zero_weight(coding)
+        )
         for file_extension, file_encoding in ENCODING_EXTENSIONS.items():
             if file_encoding not in accept_encoding:
                 continue
